@@ -14,6 +14,7 @@ mod out;
 mod render;
 mod rng;
 mod shrink;
+mod stream;
 
 use out::{Args, Report};
 
@@ -66,6 +67,7 @@ fn main() {
         let case = if v.get("case").is_some() { v["case"].clone() } else { v };
         match args.monitor.as_str() {
             "C01" => monitors::c01::replay(&args, &case, &mut rep),
+            "C02" => monitors::c02::replay(&args, &case, &mut rep),
             "C05" => monitors::c05::replay(&case, &mut rep),
             "C10" => monitors::c10::replay(&case, &mut rep),
             "C14" => monitors::c14::replay(&case, &mut rep),
@@ -77,6 +79,7 @@ fn main() {
     } else {
         match args.monitor.as_str() {
             "C01" => monitors::c01::run(&args, &mut rep),
+            "C02" => monitors::c02::run(&args, &mut rep),
             "C05" => monitors::c05::run(&args, &mut rep),
             "C10" => monitors::c10::run(&args, &mut rep),
             "C14" => monitors::c14::run(&args, &mut rep),
